@@ -4,7 +4,10 @@
 //
 // Supported subset (anything else emits `<name>_unsupported`, which breaks the dependent
 // theorems on purpose):
-//   x := []int{c0, c1, ...}            let x := [c0; c1; ...] in
+//   x := []int{c0, c1, ...}            let x := [c0; c1; ...] in   (also `var x = ...`, arrays)
+//   a table may equally be a package-level var/array with a literal of integer constants
+//   (resolved through go/types to its declaration); it is inlined, so the Coq-side shape
+//   and type of the function do not depend on where the table lives
 //   if a OP b { stmts }                if a OP b then stmts else rest
 //   switch t { case c...: stmts; default: stmts }
 //   return e  |  *v = e                e : constant | input | int(input) | len(x) | x[e]
@@ -16,6 +19,7 @@ import (
 	"go/ast"
 	"go/constant"
 	"go/token"
+	"go/types"
 	"strings"
 )
 
@@ -41,6 +45,52 @@ func (t *flvTr) fail(format string, a ...interface{}) string {
 	return "None"
 }
 
+// table resolves an identifier to an integer table: a local one (bound by a Coq let) or a
+// package-level variable whose initialiser is a literal of integer constants (inlined).
+func (t *flvTr) table(e ast.Expr) (string, bool) {
+	for {
+		p, ok := e.(*ast.ParenExpr)
+		if !ok {
+			break
+		}
+		e = p.X
+	}
+	id, ok := e.(*ast.Ident)
+	if !ok {
+		return "", false
+	}
+	if t.tables[id.Name] {
+		return id.Name, true
+	}
+	obj, ok := t.g.p.TypesInfo.Uses[id].(*types.Var)
+	if !ok || obj.Pkg() == nil || obj.Parent() != obj.Pkg().Scope() {
+		return "", false
+	}
+	for _, f := range t.g.p.Syntax {
+		for _, d := range f.Decls {
+			gd, ok := d.(*ast.GenDecl)
+			if !ok || gd.Tok != token.VAR {
+				continue
+			}
+			for _, sp := range gd.Specs {
+				vs := sp.(*ast.ValueSpec)
+				for i, nm := range vs.Names {
+					if t.g.p.TypesInfo.Defs[nm] != obj || i >= len(vs.Values) {
+						continue
+					}
+					if cl, ok := vs.Values[i].(*ast.CompositeLit); ok {
+						if vals, ok := t.g.intElems(cl); ok {
+							return "[" + strings.Join(vals, "; ") + "]", true
+						}
+					}
+					return "", false
+				}
+			}
+		}
+	}
+	return "", false
+}
+
 // pure integer expression
 func (t *flvTr) expr(e ast.Expr) string {
 	if tv, ok := t.g.p.TypesInfo.Types[e]; ok && tv.Value != nil && tv.Value.Kind() == constant.Int {
@@ -60,8 +110,8 @@ func (t *flvTr) expr(e ast.Expr) string {
 				// widening conversion of the uint8-based input: value preserving
 				return t.expr(x.Args[0])
 			case "len":
-				if a, ok := x.Args[0].(*ast.Ident); ok && t.tables[a.Name] {
-					return "(Z.of_nat (List.length " + a.Name + "))"
+				if tb, ok := t.table(x.Args[0]); ok {
+					return "(Z.of_nat (List.length " + tb + "))"
 				}
 			}
 		}
@@ -72,10 +122,13 @@ func (t *flvTr) expr(e ast.Expr) string {
 
 // result expression: option Z
 func (t *flvTr) rexpr(e ast.Expr) string {
+	if p, ok := e.(*ast.ParenExpr); ok {
+		return t.rexpr(p.X)
+	}
 	if ix, ok := e.(*ast.IndexExpr); ok {
-		if a, ok := ix.X.(*ast.Ident); ok && t.tables[a.Name] {
+		if tb, ok := t.table(ix.X); ok {
 			i := t.expr(ix.Index)
-			return fmt.Sprintf("(if %s <? 0 then None else List.nth_error %s (Z.to_nat %s))", i, a.Name, i)
+			return fmt.Sprintf("(if %s <? 0 then None else List.nth_error %s (Z.to_nat %s))", i, tb, i)
 		}
 		return t.fail("index expression")
 	}
@@ -126,6 +179,19 @@ func (t *flvTr) stmts(l []ast.Stmt) string {
 			}
 		}
 		return t.fail("assignment")
+	case *ast.DeclStmt:
+		if gd, ok := s.Decl.(*ast.GenDecl); ok && gd.Tok == token.VAR && len(gd.Specs) == 1 {
+			vs := gd.Specs[0].(*ast.ValueSpec)
+			if len(vs.Names) == 1 && len(vs.Values) == 1 {
+				if cl, ok := vs.Values[0].(*ast.CompositeLit); ok {
+					if vals, ok := t.g.intElems(cl); ok {
+						t.tables[vs.Names[0].Name] = true
+						return fmt.Sprintf("let %s := [%s] in\n  %s", vs.Names[0].Name, strings.Join(vals, "; "), t.stmts(rest))
+					}
+				}
+			}
+		}
+		return t.fail("declaration")
 	case *ast.IfStmt:
 		if s.Init != nil {
 			return t.fail("if with init")
